@@ -370,6 +370,103 @@ def build(params):
     return world
 
 
+def run_agent_bystander(params, known):
+    '''An agent with one ordinary contact (idle, or with a two-segment transfer of its own) while a
+    second connection arrives whose first octets are no TCPCLv4 contact header (wrong magic, TCPCLv3,
+    versions 5 / 255, an HTTP request, nothing but the end of the stream), at every step of the run,
+    with stop_on_close off and on, the ordinary contact outgoing or accepted.  The stray connection is
+    closed; the agent keeps running; the ordinary contact is unaffected (its transfer completes); only
+    after the ordinary contact has been terminated too does a stop_on_close agent stop - once.'''
+    from ..agent_world import AgentWorld, AGENT_PATH, AGENT_IFACE, CONTACT_IFACE
+    violations = []
+    kinds = set()
+    count = 0
+    keys = set()
+
+    def viol(kind, detail, case):
+        if kind in kinds:
+            return
+        kinds.add(kind)
+        v = Violation(PROP, 'adversary', kind, dict(), '%r: %s' % (case, detail)).as_dict()
+        v['case'] = case
+        violations.append(v)
+    heads = [('bad-magic', T.enc_contact(0, magic=b'dtn?'), False), ('tcpcl-v3', v3_header(), False), ('version-5', T.enc_contact(0, version=5), False),
+             ('version-255', T.enc_contact(0, version=255), False), ('http', b'GET / HTTP/1.1\r\nHost: x\r\n\r\n', False),
+             ('end-of-stream', b'', True)]
+    data_x = bytes(range(0xa0, 0xa5))
+    for stop_on_close in (False, True):
+        for kind in ('out', 'in'):
+            for load in ('idle', 'x-sends'):
+                for (hname, octets, eof) in heads:
+                    k = 0
+                    while True:
+                        case = dict(stop_on_close=stop_on_close, contact=kind, load=load, stray=hname, stray_after_steps=k)
+                        w = AgentWorld(dict(contacts=[kind, 'raw'], stop_on_close=stop_on_close))
+                        order = ['X', 'P0']
+                        # the ordinary session is set up first (the stray connection waits in the accept queue: X may take it at any time)
+                        done = 0
+                        live = list(order)
+                        sent = False
+                        wrote = False
+                        exhausted = False
+                        guard = 0
+                        while True:
+                            guard += 1
+                            if guard > 5000:
+                                raise HarnessError('bystander run does not end')
+                            if not sent and load == 'x-sends':
+                                paths = [str(p) for p in w.x_contacts()[1]]
+                                est = [p for p in paths if w.contact_state('X', p) == 'established' and
+                                       'peer_nodeid' in dict(w.bus_call(w.procs['X'], p, 'get_session_parameters', iface=CONTACT_IFACE)[1])]
+                                if est:
+                                    w.bus_call(w.procs['X'], est[0], 'send_bundle_data', data_x, iface=CONTACT_IFACE)
+                                    sent = True
+                            if not wrote and done >= k:
+                                w.raw_write(1, octets, eof=eof)
+                                wrote = True
+                            for (j, name) in enumerate(live):
+                                if w.step(name):
+                                    live = live[j + 1:] + live[:j + 1]
+                                    done += 1
+                                    break
+                            else:
+                                if not wrote:
+                                    exhausted = True
+                                    w.raw_write(1, octets, eof=eof)
+                                    wrote = True
+                                    continue
+                                break
+                        count += 1
+                        keys.add('%s/%s/%s/%s/%d' % (stop_on_close, kind, load, hname, k))
+                        sig = w.sig
+                        if sig.escaped:
+                            viol('exception-escaped-callback', '%s: %s' % (sig.escaped[-1][1], sig.escaped[-1][2]), case)
+                        raw = w.raw[1]
+                        if not raw.closed[1]:
+                            viol('stray-connection-left-open', 'the connection that sent %s is still open at the agent' % hname, case)
+                        if w.stops:
+                            viol('agent-stopped-by-a-stray-connection', 'on_stop ran %d times while the ordinary contact was in use' % w.stops, case)
+                        c0 = w.conns[0]
+                        if any(c0.closed):
+                            viol('ordinary-contact-closed', 'connection of the ordinary contact closed: %r' % (c0.closed,), case)
+                        if load == 'x-sends':
+                            fin = [a for (pn, _p, m, a) in sig.log if pn == 'X' and m == 'send_bundle_finished']
+                            got = [a for (pn, _p, m, a) in sig.log if pn == 'P0' and m == 'recv_bundle_finished']
+                            if [a[2] for a in fin] != ['success'] or not any(a[1] == len(data_x) and a[2] == 'success' for a in got):
+                                viol('own-transfer-affected', 'sender signals %r, receiver signals %r' % (fin, got), case)
+                        # now the ordinary contact ends too
+                        for p in [str(p) for p in w.x_contacts()[1]]:
+                            w.bus_call(w.procs['X'], p, 'terminate', 0, iface=CONTACT_IFACE)
+                        w.run_policy(live)
+                        want = 1 if stop_on_close else 0
+                        if w.stops != want and not any(kk in kinds for kk in ('agent-stopped-by-a-stray-connection', 'ordinary-contact-closed')):
+                            viol('agent-stop-count-after-last-contact', 'stop_on_close=%s: on_stop ran %d times after every contact had closed' % (stop_on_close, w.stops), case)
+                        if exhausted:
+                            break
+                        k += 1
+    return dict(name=params['name'], kind='enum', evaluations=count, nontrivial_keys=sorted(keys), violations=violations, known=[], samples=[])
+
+
 def run_same_read(params, known):
     '''Two adversarial messages arriving in ONE read: every contact-phase message followed by every
     message of the alphabet on a fresh endpoint, and every ordered pair of in-session messages after
@@ -528,6 +625,7 @@ def scenarios(tier):
             out.append(dict(name=nm, kind='graph', dev_bound=0, max_states=600000, liveness=False, weight=30,
                             params=dict(scripted_peer=True, role=role, bundles=[bytes(range(0xa0, 0xa9)).hex()], chunk=9,
                                         refuse=False, user_term=False, peer_term=False, stray=stray)))
+    out.append(dict(name='agent-bystander', kind='enum', runner='run_agent_bystander', params=dict(name='agent-bystander'), weight=60))
     out.append(dict(name='same-read', kind='enum', runner='run_same_read', params=dict(name='same-read'), weight=30))
     out.append(dict(name='unstarted-transfer', kind='enum', runner='run_unstarted', params=dict(name='unstarted-transfer'), weight=30))
     for role in ('passive', 'active'):
@@ -550,6 +648,7 @@ ASSUMPTIONS = [
     'the first thing a peer sends is some contact header (good, bad magic, TCPCLv3, version 5 or 255); anything else at that point is the bad-magic case',
     'after the peer\'s own SESS_TERM, after an unknown message type (framing lost) and after closure only "no escaped exception, output decodable" is required',
     'a refusal may be MSG_REJECT, SESS_TERM or closing the connection',
+    'agent level: a stray connection (6 kinds of first octets) arriving at every step while one ordinary contact is idle or sending, stop_on_close off / on, the ordinary contact outgoing / accepted',
     'same read: every contact-phase message followed by every alphabet message, and every ordered pair of in-session messages, delivered in one read and in two (both roles)',
     'unstarted transfers: 42 acknowledgements / refusals naming transfer 1, 2 or 9 arriving after one or two bundles were queued and before the first segment is written (segment size 64 or 4), then a conforming peer',
     'mid-write graphs: a scripted peer that acknowledges in order and sends one acknowledgement / refusal of a non-existent transfer at any point, against an endpoint writing a three-segment transfer in 9-octet chunks; every callback is a step',
